@@ -7,7 +7,9 @@ the names/values a TemplateModule exposes.
 """
 from __future__ import annotations
 
+import contextlib
 import re
+import signal
 
 from vf import core, gen_ctx
 
@@ -38,6 +40,23 @@ SIG_KEYERROR = "C05/template-globals/nested-import-KeyError"
 
 _ADDR = re.compile(r" at 0x[0-9a-fA-F]+")
 _GEN = re.compile(r"^M\[<generator object .* at 0x\?>\]$")
+
+
+
+@contextlib.contextmanager
+def cpu_alarm(seconds):
+    """hang guard on the worker's CPU time (ITIMER_PROF), so that a worker that is merely starved on a
+    shared machine is not mistaken for a hanging render (core.alarm counts wall time)."""
+    def on_alarm(signum, frame):
+        raise core.CaseTimeout()
+
+    old = signal.signal(signal.SIGPROF, on_alarm)
+    signal.setitimer(signal.ITIMER_PROF, seconds)
+    try:
+        yield
+    finally:
+        signal.setitimer(signal.ITIMER_PROF, 0)
+        signal.signal(signal.SIGPROF, old)
 
 
 def norm(got):
@@ -122,8 +141,11 @@ def shard(arg) -> core.Part:
     p = core.Part()
     for case in gen_ctx.cases(bound, shard=(k, n)):
         p.evals += 1
-        with core.alarm(20):
-            got = norm(gen_ctx.run(case))
+        try:
+            with cpu_alarm(20):
+                got = norm(gen_ctx.run(case))
+        except core.CaseTimeout:
+            got = ("exc", "Hang(20 s CPU)")
         exp = gen_ctx.expected(case)
         fam = case[0]
         p.count("cases_" + fam)
